@@ -266,7 +266,7 @@ def check_valid(ctx: Ctx, fgcol, styles, pos, bg, depth):
 MALFORMED_ALPHA = ["#", "g", "h", "0", "f", "x", ",", " ", "-", "+", "_", "1"]  # int() accepts signs, blanks and underscores
 LONG_ALPHA = {"quick": ["0", "f", "-", "x"], "thorough": ["0", "f", "-", "+", "_", " ", "x", "\u0663"]}  # '#' + six of these
 MUST_REJECT = [
-    "#gggggg", "#ggg", "h256", "h-1", "g101", "g#100", "g#gg", "bold,bold", "underline,bold,underline", "dark red,dark blue",
+    "g#12345", "h123456", "g123456", "#gggggg", "#ggg", "h256", "h-1", "g101", "g#100", "g#gg", "bold,bold", "underline,bold,underline", "dark red,dark blue",
     "h1,h2", "#fff,black", "nonsense", "dark  red", "darkred", "h", "g", "#", "g#", "#12345", "#1234567", "gx", "hx", "#12", "h1000",
 ]  # fmt: skip
 
@@ -353,8 +353,11 @@ def task_fn(task, ctx: Ctx):
     elif kind == "malformed":
         _, depth, strings = task
         for s in strings:
+            # '#' + six characters is a colour only if all six are hexadecimal digits
+            t = s.strip()  # (settings are separated by commas and stripped of blanks before they are parsed)
+            bad_long = "," not in s and len(t) == 7 and t[0] == "#" and any(ch not in "0123456789abcdefABCDEF" for ch in t[1:])
             for as_bg in (False, True):
-                check_malformed(ctx, s, as_bg, depth, False)
+                check_malformed(ctx, s, as_bg, depth, bad_long)
     elif kind == "mustreject":
         _, depth = task
         for s in MUST_REJECT:
